@@ -154,7 +154,11 @@ class Maximizer(FormulaStep):
         """
         val2 = eval_stack.pop()
         val1 = eval_stack.pop()
-        res = max(val1, val2)
+        # Python's `max` ignores a NaN second operand: a missing input must propagate.
+        if math.isnan(val1) or math.isnan(val2):
+            res = math.nan
+        else:
+            res = max(val1, val2)
         eval_stack.append(res)
 
 
@@ -177,7 +181,11 @@ class Minimizer(FormulaStep):
         """
         val2 = eval_stack.pop()
         val1 = eval_stack.pop()
-        res = min(val1, val2)
+        # Python's `min` ignores a NaN second operand: a missing input must propagate.
+        if math.isnan(val1) or math.isnan(val2):
+            res = math.nan
+        else:
+            res = min(val1, val2)
         eval_stack.append(res)
 
 
